@@ -96,6 +96,8 @@ def run(cfg):
     from . import rules_C04b as _c04b
     _c04b.abbrev_pair(R, lib, zs)
     pool_rules(R, lib, zs)
+    from . import rules_C04c
+    rules_C04c.run_rules(R, cfg, lib, zs)
     return R
 
 
